@@ -78,6 +78,17 @@ class StorageBackend(ABC):
         """Write bytes to file"""
         pass
 
+    def persist_existing_file(self, path: str) -> None:
+        """Make a file that somebody ELSE wrote durable before it is committed.
+
+        Files the library writes go through write_file / DataFileWriter, which
+        fsync the content and the directory entry. A pre-built data file queued
+        with append_files was written by the caller - typically a plain
+        pyarrow write, no fsync, possibly into a directory created a moment
+        ago. Default: nothing to do (object stores are durable on PUT).
+        """
+        return None
+
     @abstractmethod
     def read_json(self, path: str) -> Dict[str, Any]:
         """Read JSON file"""
@@ -163,6 +174,35 @@ class LocalStorageBackend(StorageBackend):
 
     def __init__(self, base_path: str):
         self.base_path = base_path
+
+    def persist_existing_file(self, path: str) -> None:
+        """fsync a caller-written file and every directory between it and the table root."""
+        full_path = self._resolve_path(path)
+        base = self._real_base_path()
+        if full_path == base:
+            raise ValueError(
+                f"Security Error: '{path}' names the table root itself, not a file inside it"
+            )
+        fd = os.open(full_path, os.O_RDONLY)
+        try:
+            os.fsync(fd)
+        finally:
+            os.close(fd)
+        directory = os.path.dirname(full_path)
+        # never above the root: its own entry in ITS parent is not ours to sync
+        while directory == base or directory.startswith(base + os.sep):
+            try:
+                dir_fd = os.open(directory, os.O_RDONLY)
+                try:
+                    os.fsync(dir_fd)
+                finally:
+                    os.close(dir_fd)
+            except (OSError, AttributeError):
+                # Some filesystems/OSes don't support directory fsync
+                pass
+            if directory == base:
+                break
+            directory = os.path.dirname(directory)
 
     def _real_base_path(self) -> str:
         """Canonical (symlink-resolved) table root.
